@@ -113,6 +113,36 @@ class M:
         return out
 
 
+def intoiter_len_ok(t, selfterm=('param', 1)):
+    """t is the exact number of elements an IntoIter still owns: `self.len()` (ExactSizeIterator), or the same number computed in
+    place: (end - ptr) bytes for zero-sized elements, (end - ptr) / size_of::<T>() otherwise"""
+    if not isinstance(t, tuple) or not t:
+        return False
+    if t[0] == 'call' and 'ExactSizeIterator' in t[1] and t[1].endswith('::len') and len(t[2]) == 1:
+        a = t[2][0]
+        return a == selfterm or (a[0] == 'addr' and a[1][0] == 'local' and a[1][2] == 1) or a == ('addr', ('deref', selfterm))
+    P_ = ('load', ('fld', ('deref', selfterm), 'collections::vec::IntoIter.ptr'), 0)
+    E_ = ('load', ('fld', ('deref', selfterm), 'collections::vec::IntoIter.end'), 0)
+    bytes_ = ('app', 'wsub', E_, P_)
+    if t[0] == 'phi':
+        norm = lambda x: ('load', x[1], 0) if isinstance(x, tuple) and x and x[0] == 'load' else x
+
+        def strip(x):
+            if not isinstance(x, tuple) or not x:
+                return x
+            if x[0] == 'load':
+                return ('load', x[1], 0)
+            return tuple(strip(y) if isinstance(y, tuple) else y for y in x)
+        alts = {strip(x) for _, x in t[2]}
+        if alts == {bytes_, ('app', 'div', bytes_, sym('sizeof(T)'))} or alts == {bytes_, ('app', 'offset_from', E_, P_)}:
+            return True
+        # self taken by value (count(self)): the fields are projections of the parameter
+        Pv, Ev = ('app', 'proj', selfterm, 'collections::vec::IntoIter.ptr'), ('app', 'proj', selfterm, 'collections::vec::IntoIter.end')
+        bv = ('app', 'wsub', Ev, Pv)
+        return alts == {bv, ('app', 'div', bv, sym('sizeof(T)'))}
+    return False
+
+
 def slin(t):
     """linear form with coefficients read as signed 64-bit (offset(-1) appears as * 0xffff_ffff_ffff_ffff)"""
     d, c = lin(t)
@@ -574,8 +604,7 @@ def run(ctx, config='rel-all'):
         I2, r2 = arena.run_fn(ctx, bs[0]['id'], config)
         sl = [e for e in r2.events if e.is_own() and e.kind == 'slice']
         P_ = ('load', ('fld', ('deref', SELF), 'collections::vec::IntoIter.ptr'), 0)
-        okv = len(sl) == 1 and sl[0].args[0] == P_ and sl[0].args[1][0] == 'call' and 'ExactSizeIterator' in sl[0].args[1][1] and sl[0].args[1][1].endswith('::len') and len(sl[0].args[1][2]) == 1 \
-            and (sl[0].args[1][2][0] == SELF or (sl[0].args[1][2][0][0] == 'addr' and sl[0].args[1][2][0][1][0] == 'local' and sl[0].args[1][2][0][1][2] == 1))
+        okv = len(sl) == 1 and sl[0].args[0] == P_ and intoiter_len_ok(sl[0].args[1])
         check('IntoIter::' + nm, 'the remaining elements are from_raw_parts(ptr, self.len())', okv, '', bs[0].get('span'))
     # ---- RawVec constructors / capacity
     def rawvec(name):
